@@ -499,3 +499,19 @@ Proof. exact prompt_write_g_nonvacuous. Qed.
 
 Print Assumptions c02_prompt_write_g_every_trace.
 Print Assumptions c02_prompt_write_g_nonvacuous.
+
+(* c02_prompt as stated is refuted only through a configuration the implementation cannot have *)
+Theorem c02_prompt_max_retx_zero_refuted :
+  exists w cfg ops,
+    vconfig_ok cfg = true /\ vc_max_retx cfg = 0 /\
+    c02_prompt cfg (wtrace w cfg ops) = false /\
+    match rev (wtrace w cfg ops) with
+    | st :: _ => match fs_result st with
+                 | FrPoll (PollReadyErr ErrMaxRetransmissionsReached) _ _ _ => True
+                 | _ => False
+                 end
+    | [] => False
+    end.
+Proof. exact prompt_max_retx_zero_refuted. Qed.
+
+Print Assumptions c02_prompt_max_retx_zero_refuted.
